@@ -1843,9 +1843,9 @@ bool TypeChecker::checkExpression(expression_t expr)
                    (is_clock(expr[1]) && isBound(expr[0])) || (is_diff(expr[0]) && isBound(expr[1])) ||
                    (isBound(expr[0]) && is_diff(expr[1]))) {
             type = type_t::create_primitive(INVARIANT);
-        } else if (is_number(expr[0]) && is_clock(expr[1])) {
+        } else if (is_number(expr[0]) && (is_clock(expr[1]) || is_diff(expr[1]))) {
             type = type_t::create_primitive(GUARD);
-        } else if (is_clock(expr[0]) && is_number(expr[1])) {
+        } else if ((is_clock(expr[0]) || is_diff(expr[0])) && is_number(expr[1])) {
             type = type_t::create_primitive(GUARD);
         } else if (is_number(expr[0]) && is_number(expr[1])) {
             type = type_t::create_primitive(Constants::BOOL);
@@ -1870,12 +1870,13 @@ bool TypeChecker::checkExpression(expression_t expr)
         break;
 
     case NEQ:
-        if (areEqCompatible(expr[0].get_type(), expr[1].get_type())) {
-            type = type_t::create_primitive(Constants::BOOL);
-        } else if ((is_clock(expr[0]) && is_clock(expr[1])) || (is_clock(expr[0]) && is_integer(expr[1])) ||
-                   (is_integer(expr[0]) && is_clock(expr[1])) || (is_diff(expr[0]) && is_integer(expr[1])) ||
-                   (is_integer(expr[0]) && is_diff(expr[1]))) {
+        // clocks first: two clocks are "equality compatible", but x != y is a (non-convex) clock constraint, not a boolean
+        if ((is_clock(expr[0]) && is_clock(expr[1])) || (is_clock(expr[0]) && is_number(expr[1])) ||
+            (is_number(expr[0]) && is_clock(expr[1])) || (is_diff(expr[0]) && is_number(expr[1])) ||
+            (is_number(expr[0]) && is_diff(expr[1]))) {
             type = type_t::create_primitive(CONSTRAINT);
+        } else if (areEqCompatible(expr[0].get_type(), expr[1].get_type())) {
+            type = type_t::create_primitive(Constants::BOOL);
         } else if (is_number(expr[0]) && is_number(expr[1])) {
             type = type_t::create_primitive(Constants::BOOL);
         }
@@ -1889,9 +1890,9 @@ bool TypeChecker::checkExpression(expression_t expr)
                    (is_integer(expr[1]) && is_clock(expr[0])) || (is_diff(expr[0]) && is_integer(expr[1])) ||
                    (is_integer(expr[0]) && is_diff(expr[1]))) {
             type = type_t::create_primitive(INVARIANT);
-        } else if (is_number(expr[0]) && is_clock(expr[1])) {
+        } else if (is_number(expr[0]) && (is_clock(expr[1]) || is_diff(expr[1]))) {
             type = type_t::create_primitive(GUARD);
-        } else if (is_clock(expr[0]) && is_number(expr[1])) {
+        } else if ((is_clock(expr[0]) || is_diff(expr[0])) && is_number(expr[1])) {
             type = type_t::create_primitive(GUARD);
         } else if (is_number(expr[0]) && is_number(expr[1])) {
             type = type_t::create_primitive(Constants::BOOL);
